@@ -80,6 +80,8 @@ class Session:
         if r != 'sat':
             s.undecided.append(name); return 'undecided'
         rdir = os.path.join(s.replay_root, re.sub(r'\W+', '_', name)[:100])
+        if replay is None and getattr(s, 'ground_tables', False):
+            replay = s.ground_replay(goal)
         if replay is None:
             s.unconfirmed.append('%s (no native replay for this obligation)' % name); return 'unconfirmed'
         verdict, info = replay(m, rdir)
@@ -91,11 +93,30 @@ class Session:
             s.undecided.append(name + ' (model does not reproduce natively)'); return 'undecided'
         s.unconfirmed.append('%s (%s)' % (name, info.get('why'))); return 'unconfirmed'
 
+    def ground_replay(s, goal):
+        """confirmation of a counterexample of an obligation over constant tables (folded by clang from the real headers): the goal is
+        evaluated under the model's index assignment - exact, no abstraction is involved"""
+        def fn(m, rdir):
+            v = z3.simplify(m.eval(goal, model_completion=True))
+            info = dict(inputs={str(d): str(m[d]) for d in m.decls()}, why='goal evaluates to %s on the constant tables folded from the real headers' % v)
+            s._ground_dir(rdir)
+            return (True if z3.is_false(v) else None), info
+        return fn
+
+    def _ground_dir(s, rdir):
+        os.makedirs(rdir, exist_ok=True)
+        open(os.path.join(rdir, 'run.sh'), 'w').write('#!/bin/sh\n# ground fact read from the compiled constant tables: shows the failing entry; re-run ./check %s to re-derive it from /repo\ncat "$(dirname "$0")/counterexample.json"\nexit 1\n' % s.prop)
+        os.chmod(os.path.join(rdir, 'run.sh'), 0o755)
+
     def fact(s, name, ok, detail=''):
         """a ground (solver-free) obligation"""
         s.obl += 1
         if ok: s.dis += 1
-        else: s.violations.append((name, None, {'detail': detail}))
+        else:
+            rdir = os.path.join(s.replay_root, re.sub(r'\W+', '_', name)[:100])
+            s._ground_dir(rdir)
+            json.dump(dict(property=s.prop, obligation=name, detail=detail), open(os.path.join(rdir, 'counterexample.json'), 'w'), indent=1)
+            s.violations.append((name, rdir, {'detail': detail}))
 
     # ---- finish
     def finish(s, rule, min_obligations=1):
